@@ -6,8 +6,10 @@
 (*         (tick+quotes, feed change, poll, broadcast, block, release);    *)
 (*         checks the timing properties of C20;                            *)
 (*  faults (FaultSpec): free interleaving of every action including        *)
-(*         broadcast errors, CheckTx rejections, time-outs, retries and    *)
-(*         feed changes in flight; checks the in-flight bookkeeping.       *)
+(*         broadcast errors, CheckTx rejections, time-outs, retries, feed  *)
+(*         changes in flight and failures before the broadcast (feeder key *)
+(*         gone, account query / gas simulation down); checks the          *)
+(*         in-flight bookkeeping.                                          *)
 (***************************************************************************)
 EXTENDS Grogu
 
@@ -35,7 +37,7 @@ MCInit ==
     /\ active = TRUE /\ since = 100
     /\ svc \in SvcChoices
     /\ pending = {} /\ subs = {} /\ nsub = 0 /\ mempool = <<>>
-    /\ lastPoll = 101
+    /\ lastPoll = 101 /\ down = FALSE
     /\ out = "init"
     /\ calm = \A s \in Sig : feeds[s].iv > 0 => TimingOK(feeds[s].iv)
     /\ waited = [s \in Sig |-> 0]
@@ -76,10 +78,11 @@ FaultNext ==
     /\ stg' = stg
     /\ \/ clk < MaxT /\ \E q \in SvcChoices : TickWith(1, q)
        \/ nsub < MaxSub /\ Poll
-       \/ \E r \in subs, res \in {"ok", "err", "chk"} : (res = "ok" => Len(mempool) < MaxMem) /\ Bcast(r.id, res)
+       \/ \E r \in subs, res \in {"ok", "err", "chk", "oog"} : (res = "ok" => Len(mempool) < MaxMem) /\ Bcast(r.id, res)
        \/ \E r \in subs, res \in {"found", "timeout"} : TxResult(r.id, res)
        \/ h < MaxH /\ \E d \in 0..par.D, k \in SlotChoices \cup {0} : Block(d, k)
        \/ \E nf \in FeedChanges : nf # feeds /\ SetFeeds(nf)
+       \/ Env(~down)
 
 FaultSpec == MCInit /\ [][FaultNext]_mvars
 
@@ -99,7 +102,7 @@ ViewOf(withH) ==
           active, RelG(since), svc, pending,
           {<<r.m, Rel(r.ts), r.st, r.try, r.res>> : r \in subs},
           [i \in 1..Len(mempool) |-> <<mempool[i].m, Rel(mempool[i].ts), mempool[i].try>>],
-          Rel(lastPoll), calm, waited, rejSeen, stg>>
+          Rel(lastPoll), down, calm, waited, rejSeen, stg>>
 \* fault facets: heights are part of the state (the block half of the miss rule decides `active`), and so are
 \* the quantities their bounds speak about (clock, height, number of submissions): a bounded search must not
 \* merge states with different remaining budgets
